@@ -1,6 +1,8 @@
 package main
 
 import (
+	"os"
+	"sync"
 	"fmt"
 	"go/token"
 	"go/types"
@@ -127,10 +129,58 @@ func wireOnly(evs []*Event) []*Event {
 	var out []*Event
 	for _, e := range evs {
 		if countsAsWire(e) {
+			if r := repeatedByte(e); r != nil {
+				e = r
+			}
 			out = append(out, e)
 		}
 	}
 	return out
+}
+
+var repeatedByteMemo sync.Map // *Event -> *Event (nil when the loop is not a byte repetition)
+
+// repeatedByte: a counted loop that is never left early and whose every iteration writes one and the same
+// loop-invariant single byte is the same wire content as one write of bytes.Repeat([]byte{b}, count).
+func repeatedByte(e *Event) *Event {
+	if e.Kind != EvRep || e.Partial || e.Count == nil || len(e.Iter) == 0 {
+		return nil
+	}
+	if r, ok := repeatedByteMemo.Load(e); ok {
+		return r.(*Event)
+	}
+	var src *Val
+	var w0 *Event
+	for _, arm := range e.Iter {
+		var ws []*Event
+		for _, x := range arm.Events {
+			if countsAsWire(x) {
+				ws = append(ws, x)
+			}
+		}
+		if len(ws) != 1 || ws[0].Kind != EvWriteInt {
+			repeatedByteMemo.Store(e, (*Event)(nil))
+			return nil
+		}
+		w := ws[0]
+		if sz, ok := fixedSize(w.IntType); !ok || sz != 1 {
+			repeatedByteMemo.Store(e, (*Event)(nil))
+			return nil
+		}
+		if w.Src.Contains(func(x *Val) bool { return x.Op == "loopvar" || x.Op == "wire" || x.Op == "elem" }) {
+			repeatedByteMemo.Store(e, (*Event)(nil))
+			return nil
+		}
+		if src != nil && src.Key() != w.Src.Key() {
+			repeatedByteMemo.Store(e, (*Event)(nil))
+			return nil
+		}
+		src, w0 = w.Src, w
+	}
+	r := &Event{ID: e.ID, Kind: EvWriteBytes, Pos: e.Pos, Fn: e.Fn, Site: e.Site, Instr: e.Instr, NCond: e.NCond, Buf: w0.Buf, Size: e.Count,
+		Src: &Val{Op: "call", Name: "bytes.Repeat", Args: []*Val{{Op: "arraylit", Args: []*Val{src}}, e.Count}}}
+	repeatedByteMemo.Store(e, r)
+	return r
 }
 
 func altHasWire(e *Event) bool {
@@ -143,7 +193,8 @@ func altHasWire(e *Event) bool {
 }
 
 // buffer methods that neither consume nor modify
-var observerMethods = map[string]bool{"String": true, "Cap": true, "Available": true, "AvailableBuffer": false}
+// (Grow changes capacity only; its argument is judged as an allocation sink by C10 and as a panic site by C09)
+var observerMethods = map[string]bool{"String": true, "Cap": true, "Available": true, "AvailableBuffer": true, "Grow": true}
 
 // rootPos: the position of the outermost call site in the analysed root function.
 func rootPos(e *Event) token.Pos {
@@ -338,8 +389,25 @@ func (c *layoutCtx) extractEnc(evs []*Event) []*FieldLayout {
 				out = append(out, f)
 				continue
 			}
+			// a same-width integer conversion (int32 <-> uint32 …) does not change the bytes written: the atom is the
+			// source value's number type
+			var sameWidth *Val
+			if cv := stripCT(ev.Src); cv.Op == "conv" && len(cv.Args) == 1 && isIntegerType(cv.Type) {
+				in := stripCT(cv.Args[0])
+				if in.Type != nil && isIntegerType(in.Type) {
+					s1, ok1 := fixedSize(cv.Type)
+					s2, ok2 := fixedSize(in.Type)
+					s3, ok3 := fixedSize(ev.IntType)
+					if ok1 && ok2 && ok3 && s1 == s2 && s1 == s3 {
+						sameWidth = in
+					}
+				}
+			}
 			f := intLayout(ev)
 			src := stripCT(ev.Src)
+			if sameWidth != nil {
+				src, f.Type = sameWidth, typeStr(sameWidth.Type)
+			}
 			if name, idx, ok := c.subject(src); ok {
 				f.Name, f.GoField = name, idx
 			} else if src.IsConst() {
@@ -496,16 +564,25 @@ func classifyByteWrite(ev *Event) byteWrite {
 	return bw
 }
 
+// armSeq is one straight-line alternative of a group of events, with the conditions under which it is taken.
+type armSeq struct {
+	evs   []*Event
+	conds []Cond
+}
+
 // expandArms flattens nested ALTs of byte writes into alternative straight-line sequences.
-func expandArms(evs []*Event) [][]*Event {
-	arms := [][]*Event{nil}
+func expandArms(evs []*Event) []armSeq {
+	arms := []armSeq{{}}
 	for _, e := range wireOnly(evs) {
 		if e.Kind == EvAlt {
-			var next [][]*Event
+			var next []armSeq
 			for _, a := range e.Iter {
 				for _, sub := range expandArms(a.Events) {
 					for _, pre := range arms {
-						next = append(next, append(append([]*Event(nil), pre...), sub...))
+						next = append(next, armSeq{
+							evs:   append(append([]*Event(nil), pre.evs...), sub.evs...),
+							conds: append(append(append([]Cond(nil), pre.conds...), a.Conds...), sub.conds...),
+						})
 					}
 				}
 			}
@@ -513,7 +590,7 @@ func expandArms(evs []*Event) [][]*Event {
 			continue
 		}
 		for i := range arms {
-			arms[i] = append(arms[i], e)
+			arms[i].evs = append(arms[i].evs, e)
 		}
 	}
 	return arms
@@ -530,7 +607,71 @@ func (c *layoutCtx) fixedEnc(evs []*Event) *FieldLayout {
 	widthSym := ""
 	pad, side := "", ""
 	var cuts []*Val
+	// the width every arm must have: a constant total if some arm has one, else the first arm's
+	var ref *Affine
+	totalOf := func(arm armSeq) *Affine {
+		t := affConst(0)
+		for _, e := range arm.evs {
+			if e.Kind == EvWriteBytes {
+				t = t.Add(affOf(e.Size), 1)
+			}
+		}
+		return t
+	}
 	for _, arm := range arms {
+		t := totalOf(arm)
+		if _, isC := t.IsConst(); isC || ref == nil {
+			ref = t
+			if isC {
+				break
+			}
+		}
+	}
+	armFacts := func(armS armSeq, a, b *Affine) []intFact {
+		conds := armS.conds
+		if c.path != nil {
+			conds = append(append([]Cond(nil), c.path.Conds...), conds...)
+		}
+		facts := factsOf(conds)
+		if c.ct == nil {
+			// a primitive analysed with symbolic parameters: widths and lengths are non-negative (the property's domain)
+			for _, t := range []*Affine{a, b} {
+				for k := range t.Term {
+					if sym := t.Sym[k]; sym.Op == "param" || sym.Op == "len" {
+						facts = append(facts, intFact{G: affOf(sym), Lo: i64(0)})
+					}
+				}
+			}
+		}
+		return facts
+	}
+	sameWidth := func(armS armSeq, total, ref *Affine) bool {
+		if total.Top || ref.Top {
+			return false
+		}
+		if total.Equal(ref) {
+			return true
+		}
+		lo, hi := boundsOf(total.Add(ref, -1), armFacts(armS, total, ref))
+		return lo != nil && hi != nil && *lo == 0 && *hi == 0
+	}
+	// prefer a reference width that every arm provably has under its own conditions
+	for _, cand := range arms {
+		ct := totalOf(cand)
+		all := true
+		for _, armS := range arms {
+			if !sameWidth(armS, totalOf(armS), ct) {
+				all = false
+				break
+			}
+		}
+		if all {
+			ref = ct
+			break
+		}
+	}
+	for _, armS := range arms {
+		arm := armS.evs
 		total := affConst(0)
 		seenData, padBefore, padAfter := false, false, false
 		for _, e := range arm {
@@ -579,6 +720,11 @@ func (c *layoutCtx) fixedEnc(evs []*Event) *FieldLayout {
 			}
 		}
 		cuts = nil
+		if ref != nil && !total.Equal(ref) && sameWidth(armS, total, ref) {
+			// the arm's own width equals the field width because of the conditions under which the arm is taken
+			// (e.g. "nothing left to pad": width - len(s) <= 0 together with the earlier !(len(s) > width))
+			total = ref
+		}
 		n, ok := total.IsConst()
 		if !ok {
 			// symbolic width: allowed only when analysing a primitive with symbolic parameters
@@ -787,6 +933,14 @@ func valuePath(v *Val, id int, allowTrim bool, loops map[int]*Event) (ops []stri
 			}
 			pad = v.Args[1]
 			v = stripCT(v.Args[0])
+		case v.Op == "loopout" && allowTrim && loops != nil && loops[v.ID] != nil && len(v.Args) >= 1:
+			// a slice narrowed by a loop: recognised only as the strip idiom (drop the boundary byte while it is the pad byte)
+			if side, p, ok := verifyShrink(loops[v.ID], v.Name); ok && trim == "" {
+				trim, pad, padIsByte = side, p, true
+			} else {
+				ops = append(ops, "narrowed by a loop that is not the boundary-strip idiom")
+			}
+			v = stripCT(v.Args[0])
 		case v.Op == "slice" && allowTrim:
 			if side, p, ok := scanTrim(v, loops); ok && trim == "" {
 				if side != "" {
@@ -929,6 +1083,35 @@ func (c *layoutCtx) extractDec(evs []*Event, sink func(wireIDs []int, loop int) 
 			}
 			out = append(out, f)
 		case EvReadBytes:
+			// a count or length prefix assembled by hand (ReadFull of N bytes, ByteOrder.UintN over exactly those bytes,
+			// widened): the same wire atom as a number read, followed by its list or text
+			if n, okN := affOf(ev.Size).IsConst(); okN && i+1 < len(w) {
+				nx := w[i+1]
+				var cnt *Val
+				switch {
+				case nx.Kind == EvRep && !nx.Partial:
+					cnt = nx.Count
+				case nx.Kind == EvReadBytes && !nx.Failed:
+					cnt = nx.Size
+				}
+				if cnt != nil {
+					if pt, ord, okP := manualCount(cnt, ev.ID, n); okP {
+						// re-dispatch as if the prefix had been read as a number
+						syn := &Event{ID: ev.ID, Kind: EvReadInt, Pos: ev.Pos, Fn: ev.Fn, Site: ev.Site, Instr: ev.Instr, NCond: ev.NCond, Buf: ev.Buf, IntType: pt, Order: ord, Size: ev.Size}
+						cnt2 := &Val{Op: "wire", ID: ev.ID}
+						nx2 := *nx
+						if nx.Kind == EvRep {
+							nx2.Count = cnt2
+						} else {
+							nx2.Size = cnt2
+						}
+						sub := c.extractDec([]*Event{syn, &nx2}, sink)
+						out = append(out, sub...)
+						i++
+						continue
+					}
+				}
+			}
 			// a number assembled by hand: ReadFull of N bytes, then ByteOrder.UintN over exactly those bytes
 			if n, okN := affOf(ev.Size).IsConst(); okN {
 				if name, idx, v, okS := sink([]int{ev.ID}, 0); okS {
@@ -1159,6 +1342,121 @@ func verifyScan(loop *Event, W *Val, left bool) (*Val, bool) {
 		return nil, false
 	}
 	return p, true
+}
+
+// verifyShrink recognises the other spelling of the strip idiom: a slice variable that loses its first (last) byte
+// on every iteration, the loop running while the slice is non-empty and that boundary byte equals the pad byte:
+//   for len(b) > 0 && b[0] == pad { b = b[1:] }          (left)
+//   for len(b) > 0 && b[len(b)-1] == pad { b = b[:len(b)-1] }   (right)
+func verifyShrink(loop *Event, name string) (string, *Val, bool) {
+	if os.Getenv("FPDEBUG") != "" {
+		for _, arm := range loop.Iter {
+			fmt.Fprintln(os.Stderr, "shrink arm conds:", condString(arm.Conds), "next:", arm.Next[name].Pretty(), "events:", len(arm.Events))
+		}
+	}
+	if len(loop.Iter) != 1 {
+		return "", nil, false
+	}
+	arm := loop.Iter[0]
+	for _, e := range arm.Events {
+		if e.Kind != EvPanicSite {
+			return "", nil, false
+		}
+	}
+	if len(arm.Conds) != 2 || !arm.Conds[0].Taken || !arm.Conds[1].Taken {
+		return "", nil, false
+	}
+	var lv *Val
+	arm.Conds[0].V.Walk(func(x *Val) bool {
+		if x.Op == "loopvar" && x.ID == loop.LoopID && x.Name == name {
+			lv = x
+		}
+		return true
+	})
+	if lv == nil {
+		return "", nil, false
+	}
+	next := stripCT(arm.Next[name])
+	if next == nil || next.Op != "slice" || stripCT(next.Args[0]).Key() != lv.Key() || next.Args[3] != nil {
+		return "", nil, false
+	}
+	// the loop runs while the slice is non-empty
+	c1 := arm.Conds[0].V
+	L := mkLen(lv)
+	nonEmpty := false
+	if c1.Op == "binop" && len(c1.Args) == 2 {
+		a0, a1 := c1.Args[0], c1.Args[1]
+		k0, isC0 := a0.Int64()
+		k1, isC1 := a1.Int64()
+		switch {
+		case (c1.Name == ">" || c1.Name == "!=") && affEq(a0, L) && isC1 && k1 == 0,
+			c1.Name == ">=" && affEq(a0, L) && isC1 && k1 == 1,
+			(c1.Name == "<" || c1.Name == "!=") && affEq(a1, L) && isC0 && k0 == 0,
+			c1.Name == "<=" && affEq(a1, L) && isC0 && k0 == 1:
+			nonEmpty = true
+		}
+	}
+	if !nonEmpty {
+		return "", nil, false
+	}
+	c2 := arm.Conds[1].V
+	if c2.Op != "binop" || c2.Name != "==" {
+		return "", nil, false
+	}
+	el, p := stripCT(c2.Args[0]), stripCT(c2.Args[1])
+	if el.Op != "elem" {
+		el, p = p, el
+	}
+	// the boundary byte: elem(b, i), or the load of &b[i] when b has no recorded content
+	asElem := func(v *Val) *Val {
+		if v.Op == "init" && len(v.Args) == 1 && v.Args[0].Op == "index" {
+			return &Val{Op: "elem", Args: v.Args[0].Args, Type: v.Type}
+		}
+		return v
+	}
+	el, p = asElem(el), asElem(p)
+	if el.Op != "elem" {
+		el, p = p, el
+	}
+	if el.Op != "elem" || stripCT(el.Args[0]).Key() != lv.Key() {
+		return "", nil, false
+	}
+	if p.Contains(func(x *Val) bool { return x.Op == "wire" || x.Op == "loopvar" || x.Op == "elem" || x.Op == "index" }) {
+		return "", nil, false
+	}
+	isZero := func(v *Val) bool {
+		if v == nil {
+			return true
+		}
+		n, ok := v.Int64()
+		return ok && n == 0
+	}
+	lm1 := &Val{Op: "binop", Name: "-", Args: []*Val{L, mkInt(1)}}
+	lo, hi := next.Args[1], next.Args[2]
+	if n, ok := el.Args[1].Int64(); ok && n == 0 {
+		// left: b = b[1:]
+		if one, ok := lo.Int64(); lo != nil && ok && one == 1 && (hi == nil || affEq(hi, L)) {
+			return "left", p, true
+		}
+		return "", nil, false
+	}
+	if affEq(el.Args[1], lm1) && isZero(lo) && hi != nil && affEq(hi, lm1) {
+		return "right", p, true
+	}
+	return "", nil, false
+}
+
+// manualCount: v is ByteOrder.UintN(wire#id), possibly widened (never narrowed or sign-changed at equal width), with N
+// bytes read: the count or length that follows a hand-assembled prefix.
+func manualCount(v *Val, id int, n int64) (types.Type, string, bool) {
+	v = stripCT(v)
+	for v.Op == "conv" && len(v.Args) == 1 && v.Args[0].Type != nil && wideningInt(stripCT(v.Args[0]).Type, v.Type) {
+		v = stripCT(v.Args[0])
+	}
+	if v.Op != "call" {
+		return nil, "", false
+	}
+	return manualInt(v, id, n)
 }
 
 // manualInt: v is T(ByteOrder.UintN(wire#id)) with N bytes read and T an integer type of the same size.
